@@ -65,6 +65,19 @@ func (queueComp) Gen(r *rand.Rand, tier string, n int) []*wire.Case {
 	mk("d-mid-drain", ins(115), ins(115), ins(500), pop(), ins(75), ins(115), pop(), ins(45), pop(), pop(), pop(), pop())
 	mk("d-empty-pop", wire.R("isempty"), pop(), ins(75), pop(), pop())
 	mk("d-negative", ins(-5), ins(0), ins(-5), ins(3), pop(), pop(), pop(), pop())
+	// bursts: many tasks pending at once (the backing store grows and may shrink again), drained completely, refilled
+	for _, k := range []int{10, 11, 12, 20, 21, 33, 70} {
+		tag = 0
+		var ops []*wire.Rec
+		for j := 0; j < k; j++ {
+			ops = append(ops, ins(pick(r, 75, 115, 75, 115, 500)))
+		}
+		for j := 0; j < k-2; j++ {
+			ops = append(ops, pop())
+		}
+		ops = append(ops, ins(45), ins(115), pop(), pop(), pop(), pop(), pop(), wire.R("isempty"))
+		mk(fmt.Sprintf("d-burst-%d", k), ops...)
+	}
 	if tier == "thorough" {
 		// exhaustive: all words over {insert p (p in 3 priorities), pop} up to length 8 with at most 7 pending
 		alpha := []int{75, 115, 500, -1}
@@ -106,7 +119,24 @@ func (queueComp) Gen(r *rand.Rand, tier string, n int) []*wire.Case {
 		pending := 0
 		l := 5 + r.Intn(60)
 		few := r.Intn(2) == 0
+		burst := 0
+		if i%4 == 0 {
+			burst = 8 + r.Intn(30) // a burst of insertions somewhere, drained afterwards
+		}
+		at := r.Intn(l)
 		for j := 0; j < l; j++ {
+			if burst > 0 && j == at {
+				for k := 0; k < burst; k++ {
+					ops = append(ops, ins(insertPrios[r.Intn(len(insertPrios))]))
+					pending++
+				}
+				for k := 0; k < burst-r.Intn(6); k++ {
+					ops = append(ops, pop())
+					if pending > 0 {
+						pending--
+					}
+				}
+			}
 			if r.Intn(5) < 3 || (pending == 0 && r.Intn(20) != 0) {
 				p := insertPrios[r.Intn(len(insertPrios))]
 				if few {
